@@ -220,7 +220,7 @@ def _dedupe(out):
 
 
 def res_tuple(r):
-    a = r.auth
+    a = getattr(r, "auth", None)
     return (a.chain, a.number, a.icode, a.name) if a is not None else None
 
 
